@@ -6,7 +6,7 @@
 #include "seqmc.h"
 #include "qlibc.h"
 
-#define MAXL 8
+#define MAXL 10
 typedef struct { unsigned char b[4]; size_t n; } el_t;
 static const el_t EL[4] = {{{'x'}, 1}, {{'y', 0}, 2}, {{'a', 0, 'b'}, 3}, {{0}, 1}};
 static int L;
@@ -15,7 +15,7 @@ static sm_spec_t SP;
 
 enum { OP_ADDFIRST, OP_ADDLAST, OP_ADDAT, OP_POPAT, OP_REMOVEAT, OP_POPFIRST, OP_POPLAST, OP_REMOVEFIRST, OP_REMOVELAST, OP_REVERSE, OP_CLEAR, OP_SETSIZE };
 typedef struct { int kind, i, e; const char *label; } op_t;
-static op_t OPS[256]; static int NOPS;
+static op_t OPS[400]; static int NOPS;
 static const char *op_label(int op) { return OPS[op].label; }
 static int elid(const void *d, size_t n) { for (int i = 0; i < 4; i++) if (EL[i].n == n && !memcmp(EL[i].b, d, n)) return i; return -1; }
 static size_t m_datasize(const model_t *m) { size_t s = 0; for (int i = 0; i < m->n; i++) s += EL[m->e[i]].n; return s; }
